@@ -298,13 +298,19 @@ def run_program(prog, upto=None):
     return H
 
 
+CMP = {"<": operator.lt, "<=": operator.le, ">": operator.gt, ">=": operator.ge}
+
+
 def build_assert(e, val):
-    """expression language of assertions: {"cmp": "<", "l": operand, "r": operand} possibly chained"""
-    CMP = {"<": operator.lt, "<=": operator.le, ">": operator.gt, ">=": operator.ge}
+    """assertion expressions: {"lit": bool} or a left-nested chain
+    {"ops": [op0, op1, ...], "operands": [o0, o1, o2, ...]} meaning ((o0 op0 o1) op1 o2) ..."""
     if "lit" in e:
         return bool(e["lit"])
-    ops = [val(e["l"]) if "cmp" not in (e["l"] if isinstance(e["l"], dict) else {}) else build_assert(e["l"], val), val(e["r"])]
-    return CMP[e["cmp"]](ops[0], ops[1])
+    vals = [val(o) for o in e["operands"]]
+    r = CMP[e["ops"][0]](vals[0], vals[1])
+    for k in range(1, len(e["ops"])):
+        r = CMP[e["ops"][k]](r, vals[k + 1])
+    return r
 
 
 def program_text(prog):
